@@ -9,6 +9,8 @@
 import CijProofs.Lemmas.NonShearCalculus
 import CijProofs.Lemmas.NonShearSource
 import Generated.AdapterSpec
+import CijProofs.Lemmas.ShearSource
+import CijProofs.Lemmas.TasksSource
 
 namespace Cij.C02
 
@@ -203,5 +205,30 @@ theorem qha_adapter_fields_are_source :
     (∀ a ∈ tvFields, a ∉ tpFields) ∧
     Generated.qhaReadInputCanonical = true := by
   decide +kernel
+
+/-! #### ties shared with other properties
+
+The statement of this property also rests on code whose translation is owned by another property's file; the theorems are restated
+here so that this property's obligations are re-checked against those files too (a change there breaks THIS check's proof as well). -/
+
+/-- the arithmetic of the shear solver in `shear.py` as translated on this run: the target formula of the model is the translated one -/
+theorem c02_shear_target_is_source {α : Type} [Add α] [Sub α] [Mul α] [Div α] [NatCast α]
+    (key : Cij.Modulus) (e : Cij.Shear.Mat3 α) (eRot eOrig : α) :
+    Cij.Shear.targetModulus key e eRot eOrig =
+      Cij.ShExpr.eval (Cij.ShExpr.envOf eRot (e (Cij.Shear.idx key.i.i) (Cij.Shear.idx key.i.j)) (e (Cij.Shear.idx key.j.i) (Cij.Shear.idx key.j.j))
+        eRot eOrig ((key.multiplicity : Nat) : α)) Generated.shearTarget :=
+  Cij.ShExpr.target_is_source key e eRot eOrig
+
+/-- `cij/core/tasks.py` as translated on this run: a non-shear task is identified by the two strain columns the source names,
+task equality is at rounding level (`_STRAIN_RTOL ≤ 1e-9`, `atol = 0`), and `calculate()` feeds a shear task from the isothermal store -/
+theorem c02_tasks_are_source {α : Type} [Add α] [Div α] (strain : Cij.Tasks.SField α) (key : Cij.Modulus) :
+    (match Generated.makeParamCols with
+     | [c0, c1] => Cij.Tasks.create strain key =
+        if key.isShear then .shear strain key
+        else .nonshear key.calcType (Cij.Tasks.component strain (Cij.Tasks.colOf key c0)) (Cij.Tasks.component strain (Cij.Tasks.colOf key c1))
+     | _ => False) ∧
+    (0 < Generated.strainRtol.1 ∧ Generated.strainRtol.1 * 1000000000 ≤ Generated.strainRtol.2) ∧
+    Generated.tasksWiringCanonical = true :=
+  ⟨Cij.Tasks.create_is_source strain key, Cij.Tasks.strain_rtol_tight, rfl⟩
 
 end Cij.C02
